@@ -32,3 +32,17 @@ func Flow02(ctx context.Context, a A, f *F, d *D) error {
 		cff.Task(S1, cff.Invoke(true)),
 	)
 }
+
+// FlowM1: the modifier-mode subset (Params, Results, Concurrency, plain
+// Tasks): multi-output task, error-less tasks, two Results.
+func FlowM1(ctx context.Context, a A, f *F, d *D) error {
+	return cff.Flow(ctx,
+		cff.Concurrency(2),
+		cff.Params(a),
+		cff.Task(T7),
+		cff.Results(f, d),
+		cff.Task(T6),
+		cff.Task(T4),
+		cff.Task(T5),
+	)
+}
